@@ -69,3 +69,11 @@ claim(
     "abstract interpretation with an extensivity type domain (half/full-span exponents, panel axes from symbolic shapes, doubling-factor idioms)",
     "DESIGN.md section 2 C04",
 )
+
+claim(
+    "C17",
+    "Static: decides, as identities of expressions extracted from the source for generic surfaces, that the performance functionals equal the defining formulas of the property statement (L = q S CL, area-weighted coefficients, lift-equals-weight residual and weight, Breguet fuel burn, mass-weighted cg given Equilibrium's weight, Reynolds number per length, CD sum), that their stored partials are the derivatives of those values, and that CM is normalised by a chord that depends on the first surface only. Does not decide atmosphere-table consistency or continuity.",
+    TB + " Symbol positivity assumptions for physical quantities (rho, v, areas, masses).",
+    "source-level expression extraction (sympy) per option valuation and normal-form comparison against the formulas of the statement",
+    "DESIGN.md section 2 C17",
+)
